@@ -179,7 +179,7 @@ def run_paths(make_machine, body, *, max_paths=None, deadline=None, stats: Stats
     while work:
         if max_paths is not None and stats.paths >= max_paths:
             raise Budget(f"path budget {max_paths} exhausted with {len(work)} prefixes pending")
-        if deadline is not None and time.time() > deadline:
+        if deadline is not None and time.process_time() > deadline:
             raise Budget(f"time budget exhausted with {len(work)} prefixes pending")
         prefix = work.pop()
         m = make_machine(prefix)
